@@ -429,11 +429,11 @@ def universe(ctx):
         yield ["r", repr(x)], False
         yield L([["r", repr(x)]]), False
     # strings over the alphabet of the quantifier: all up to length 3 (thorough) / 2 (quick), alone and in a list
-    for n in range(0, 3 if quick else 4):
+    for n in range(0, 4 if quick else 5):
         for t in itertools.product(ALPHA, repeat=n):
             s = "".join(t)
             yield S(s), n <= 1
-            if n <= 2 or rng.random() < 0.3:
+            if n <= 2 or rng.random() < (0.2 if quick else 0.5):
                 yield L([S(s)]), False
                 yield L([S(s), I(-1)]), False
     for s in STRINGS:
@@ -445,7 +445,7 @@ def universe(ctx):
         yield L([L([a])]), False
     pairs = list(itertools.product(AL, AL))
     if quick:
-        pairs = rng.sample(pairs, 700)
+        pairs = rng.sample(pairs, 4000)
     for a, b in pairs:
         yield L([a, b]), False
     # homogeneous and mixed numeric vectors / matrices (kg_asarray coerces the mixed regular ones)
@@ -469,10 +469,10 @@ def universe(ctx):
         yield v, False
     e2 = SMALL + d1
     d2 = [L(t) for n in range(1, 3) for t in itertools.product(e2, repeat=n)]
-    for v in (rng.sample(d2, 400) if quick else d2):
+    for v in d2:
         yield v, False
     e3 = SMALL + d1 + rng.sample(d2, 60)
-    for _ in range(300 if quick else 6000):
+    for _ in range(2000 if quick else 30000):
         n = rng.choice([1, 2, 2, 3])
         yield L([rng.choice(e3) for _ in range(n)]), False
     # core atoms at depth 3
@@ -486,9 +486,9 @@ def universe(ctx):
         yield L([D([[k, k]])]), False
     vals = CORE + [L([]), L([I(1), I(-2)]), L([S("["), C('"')]), D([]), D([[I(1), S("x")]]), L([D([[Y("a"), L([I(1)])]])])]
     kv = list(itertools.product(KEYS, vals))
-    for k, v in (rng.sample(kv, 150) if quick else kv):
+    for k, v in kv:
         yield D([[k, v]]), False
-    for _ in range(150 if quick else 3000):
+    for _ in range(1500 if quick else 20000):
         n = rng.choice([2, 2, 3, 4])
         ks = rng.sample(KEYS, n)
         if any(a[0] == "c" and b[0] == "s" and a[1] == b[1] for a in ks for b in ks):
@@ -497,11 +497,11 @@ def universe(ctx):
     yield D([[I(1), D([[I(2), D([[I(3), L([D([])])]])]])]]), True
     yield L([D([[S("k"), L([I(1), D([[C('x'), S('"')]])])]]), I(-5)]), True
     # seeded random strings and nestings
-    for _ in range(400 if quick else 8000):
+    for _ in range(3000 if quick else 60000):
         s = rand_string(rng, ALPHA if rng.random() < 0.5 else ALPHA_WIDE, 10)
         r = rng.random()
         yield (S(s) if r < 0.4 else L([S(s)]) if r < 0.7 else L([S(s), C(rng.choice(ALPHA)), S(rand_string(rng))])), rng.random() < 0.05
-    for _ in range(600 if quick else 12000):
+    for _ in range(5000 if quick else 100000):
         yield rand_value(rng, 3), rng.random() < 0.05
 
 
@@ -509,7 +509,7 @@ def universe(ctx):
 
 def _common(ctx):
     ctx.rule = ("closed universe: every atom (extreme/negative integers, reals incl. exponent forms, characters, "
-                "symbols, strings over {quote, blank, newline, [, ], :, 0, c, letters} up to length 3), every atom and "
+                "symbols, strings over {quote, blank, newline, [, ], :, 0, c, letters} up to length 3 (4 in the thorough tier)), every atom and "
                 "sampled/all pairs in a list, nestings to depth 3 over a small pool (depth <=2 exhaustive in the "
                 "thorough tier), dictionaries over every key kind, plus seeded random strings and nestings; each "
                 "value: kg_write -> .rs (and .w/.r for a subset) on the real interpreter and the Lean writer/reader. "
